@@ -60,4 +60,69 @@ theorem circleSegment_two_pi (k : Consts K) (r : K) (center normal xaxis : List 
   have h1 : ¬ k.pi < |k.pi| := by rw [abs_of_nonneg hpi]; exact lt_irrefl _
   simp [circleSegment, h1, not_le.mpr hr]
 
+/-- `(cos, sin)(j·π/2)`: `(1,0), (0,1), (−1,0), (0,−1)`. -/
+def quarterDir (j : ℕ) : K × K := match j with | 0 => (1, 0) | 1 => (0, 1) | 2 => (-1, 0) | _ => (0, -1)
+
+/-- quarter points of the unit circles: at `t = j·π/2` (right-continuous) the homogeneous point is
+    `(cos, sin, 1)(jπ/2) = (1,0,1), (0,1,1), (−1,0,1), (0,−1,1)`. -/
+theorem circle_quarter_points (pi : K) (hpi : 0 < pi) (j : ℕ) (hj : j < 4) :
+    (∀ w : K,
+      let τ := ({ order := 3, knots := (circleKnotsP2 pi).toArray, periodic := 0 } : Basis K).kn
+      splineVal .right τ 2 9 (netComp (circleNetP2 w) 0) ((j : K) * (pi / 2)) = (quarterDir (K := K) j).1 ∧
+      splineVal .right τ 2 9 (netComp (circleNetP2 w) 1) ((j : K) * (pi / 2)) = (quarterDir (K := K) j).2 ∧
+      splineVal .right τ 2 9 (netComp (circleNetP2 w) 2) ((j : K) * (pi / 2)) = 1) ∧
+    (∀ s2 : K,
+      let τ := ({ order := 5, knots := (circleKnotsP4 pi).toArray, periodic := 1 } : Basis K).kn
+      splineVal .right τ 4 14 (netComp (circleNetP4 s2) 0) ((j : K) * (pi / 2)) = (quarterDir (K := K) j).1 ∧
+      splineVal .right τ 4 14 (netComp (circleNetP4 s2) 1) ((j : K) * (pi / 2)) = (quarterDir (K := K) j).2 ∧
+      splineVal .right τ 4 14 (netComp (circleNetP4 s2) 2) ((j : K) * (pi / 2)) = 1) := by
+  have hh : (0 : K) < pi / 2 := by positivity
+  have ht : Side.right.mem ((j : K) * (pi / 2)) ((j : K) * (pi / 2) + pi / 2) ((j : K) * (pi / 2)) :=
+    ⟨le_refl _, by linarith⟩
+  constructor
+  · intro w τ
+    have hτ := p2Knot_mono (pi / 2) hh
+    have hk : ∀ c, splineVal .right τ 2 9 c ((j : K) * (pi / 2))
+        = splineVal .right (p2Knot (pi / 2)) 2 9 c ((j : K) * (pi / 2)) := fun c =>
+      splineVal_congr_knots .right _ _ 2 9 c _ (fun k hk => kn_circleP2 pi k (by omega))
+    have hv : ∀ c, splineVal .right (p2Knot (pi / 2)) 2 9 c ((j : K) * (pi / 2)) = c (2 * j) := by
+      intro c
+      have := splineVal_bezier2 .right (p2Knot (pi / 2)) hτ (2*j) 9 c ((j : K) * (pi / 2)) ((j : K) * (pi / 2) + pi / 2)
+        ((j : K) * (pi / 2)) (by linarith)
+        (by interval_cases j <;> simp [p2Knot] <;> ring) (by interval_cases j <;> simp [p2Knot] <;> ring)
+        (by interval_cases j <;> simp [p2Knot] <;> ring) (by interval_cases j <;> simp [p2Knot] <;> ring)
+        ht (by omega)
+      rw [this]; simp [bern2]
+    rw [hk, hk, hk, hv, hv, hv]
+    interval_cases j <;> simp [netComp, circleNetP2, quarterDir]
+  · intro s2 τ
+    have hτ := p4Knot_mono (pi / 2) hh
+    have hk : ∀ c, splineVal .right τ 4 14 c ((j : K) * (pi / 2))
+        = splineVal .right (p4Knot (pi / 2)) 4 14 c ((j : K) * (pi / 2)) := fun c =>
+      splineVal_congr_knots .right _ _ 4 14 c _ (fun k hk => kn_circleP4 pi k (by omega))
+    have hv : ∀ c, splineVal .right (p4Knot (pi / 2)) 4 14 c ((j : K) * (pi / 2)) = (c (3 * j) + c (3 * j + 1)) / 2 := by
+      intro c
+      have := splineVal_triple4 .right (p4Knot (pi / 2)) hτ (3*j) 14 c ((j : K) * (pi / 2)) (pi / 2) ((j : K) * (pi / 2)) hh
+        (by interval_cases j <;> simp [p4Knot] <;> ring) (by interval_cases j <;> simp [p4Knot] <;> ring)
+        (by interval_cases j <;> simp [p4Knot] <;> ring) (by interval_cases j <;> simp [p4Knot] <;> ring)
+        (by interval_cases j <;> simp [p4Knot] <;> ring) (by interval_cases j <;> simp [p4Knot] <;> ring)
+        (by interval_cases j <;> simp [p4Knot] <;> ring) (by interval_cases j <;> simp [p4Knot] <;> ring)
+        ht (by omega)
+      rw [this]; simp [bern4]
+    rw [hk, hk, hk, hv, hv, hv]
+    interval_cases j <;> simp [netComp, circleNetP4, quarterDir] <;> ring
+
+
+omit [IsStrictOrderedRing K] in
+theorem is3_arcNet_rev (r cd sd : K) (n : ℕ) :
+    Is3 (arcNet r cd sd n).reverse (arcNet r cd sd n).reverse.length := by
+  intro j hj
+  rw [List.length_reverse, arcNet_length] at hj
+  have h := arcNet_getElem? r cd sd n (2 * n - j) (by omega)
+  refine ⟨arcX r cd sd (2 * n - j), arcY r cd sd (2 * n - j), arcW cd (2 * n - j), ?_⟩
+  rw [List.getD_eq_getElem?_getD, List.getElem?_reverse (by rw [arcNet_length]; exact hj), arcNet_length]
+  have : 2 * n + 1 - 1 - j = 2 * n - j := by omega
+  rw [this, h]; rfl
+
+
 end Splipy.Fac
